@@ -270,9 +270,20 @@ def run(ctx):
     except _absint.Unknown as u:
         decided = False
         r6.viol("R6:undecided", "the initialisers cannot be interpreted on the current code (%s): not decided on this tree (fail closed); the structural rules R1 / R2 follow" % str(u)[:300])
+    # `otherwise the default`: L::default() is the first variant of the generated enum, and the configuration loader puts the configured
+    # default first (C13.R0 / C19.R0)
+    r7 = c13.supported_and_default(ctx, "C15.R7", "the default the resolution ends in is the configured default locale",
+                                   "`otherwise the default`: Locale::default() is the variant marked #[default] - the first of the list the configuration loader produced; a loader "
+                                   "that leaves another locale first makes every visitor without cookie or matching language start in that locale")
+    # `parent context's locale`: the parent is the context of the *enclosing* provider - a sub-context is provided inside its own child
+    # owner, so it is not what a sibling provider finds as its parent (the run_as_children clause of C16.R3, rules/c16.py)
+    from rules import c16
+    r8 = borrow(c16.r3_isolation(ctx, ctx.mir("main")), "C15.R8", "the parent a sub-context falls back to is the enclosing context, never a sibling's sub-context",
+                "`For a sub-context the order is cookie, explicit initial locale, parent context's locale`: the parent is looked up with use_context; a sub-context "
+                "provided in the surrounding owner instead of its own child owner becomes the `parent` of every later sibling provider", only=r"run_as_children", floor=1)
     if decided:
-        return [r6, r3_own_options(ctx), r4, r5]
-    return [r6, r1_chains(ctx), r2_cookie(ctx), r3_own_options(ctx), r4, r5]
+        return [r6, r3_own_options(ctx), r4, r5, r7, r8]
+    return [r6, r1_chains(ctx), r2_cookie(ctx), r3_own_options(ctx), r4, r5, r7, r8]
 
 
 MANIFEST_ENTRY = {
